@@ -11,11 +11,14 @@ RULE = ("GEN: TLC (CrashGen.tla) generates client workloads (ingress to a pull r
         "/repo with -tags verif, SQLite on disk, loopback listeners, push dispatcher active) to count the hits of every hook label, then once "
         "per (label, n): the process kills itself with SIGKILL at the n-th hit (inside and between store transactions, between the per-target "
         "enqueues of a fan-out, before the ingress / publish response, around lease mutations, inside schema migration), plus external "
-        "SIGKILLs at random instants. After each kill the database is opened with the store's own open path (integrity_check, counters, raw "
+        "SIGKILLs at random instants, and a family of runs in which the store checkpoints its WAL every millisecond (verif-only override of the "
+        "one-minute interval) killed at the n-th checkpoint's start, right after it and at random instants. The pull workloads include the "
+        "batch forms (lease_ids) of ack / nack / dead-letter; the configuration has queue_retention with a prune interval the backlog outlives "
+        "before the restart. After each kill the database is opened with the store's own open path (integrity_check, counters, raw "
         "table), the binary is restarted on the same files and asked for everything it offers once the leases ran out. TV: CrashTrace.tla "
         "checks every run: acknowledged messages present exactly once and well formed, acknowledged ack / nack / dead-letter not undone, "
         "unacknowledged requests all-or-prefix (fan-out) / all-or-nothing (publish), nothing nobody sent, queue opens, restart succeeds, "
-        "unsettled pull messages offered again. distinct_nontrivial = validated events.")
+        "unsettled pull messages offered again, settled ones never. distinct_nontrivial = validated events.")
 
 RE_WORK = re.compile(r'^<<"WORK", "(.*)">>$')
 CANON = [{"op": "ingress", "route": "pull"}, {"op": "ingress", "route": "fan"}, {"op": "publish", "route": "pull", "n": 3}, {"op": "dequeue", "batch": 2},
@@ -80,6 +83,15 @@ def run(ctx):
                 jobs.append({"name": "w%d-%s-%d" % (i, lab.replace(".", "_"), n), "ops": w, "crash": "%s:%d" % (lab, n), "kill_at_ms": 0, "hitlog": False, "label": lab})
         for k in range(nrand // len(works)):
             jobs.append({"name": "w%d-rand%d" % (i, k), "ops": w, "crash": "", "kill_at_ms": rnd.randint(1, 400), "hitlog": False, "label": "random"})
+    # kills around and inside WAL checkpoints: the store checkpoints every millisecond (hook VERIF_SQLITE_CHECKPOINT_MS),
+    # the run is killed at the n-th checkpoint's start / end and at random instants
+    nck = 12 if ctx.quick else 300
+    for k in range(nck):
+        i = k % len(works)
+        mode = k % 3
+        crash = "" if mode == 0 else "%s:%d" % ("sqlite.checkpoint" if mode == 1 else "sqlite.checkpoint.done", rnd.randint(1, 150))
+        jobs.append({"name": "w%d-ckpt%d" % (i, k), "ops": works[i], "crash": crash, "kill_at_ms": rnd.randint(1, 300) if mode == 0 else 0,
+                     "hitlog": False, "ckpt_ms": 1, "label": "checkpoint"})
     ctx.count("crash_jobs", len(jobs))
     out1, _, info1 = run_jobs(ctx, binp, jobs, "crash", vf.NCPU)
     if info1["errors"] > len(jobs) // 10:
@@ -89,7 +101,7 @@ def run(ctx):
     ctx.cov["schedules_executed"] += len(jobs) + len(clean)
     byname = {j["name"]: j for j in jobs + clean}
     seen = {}
-    selfcrash = acked = 0
+    selfcrash = acked = ck_runs = ck_inside = ck_total = 0
     labels_hit = set()
     for r in res:
         if r["error"]:
@@ -99,9 +111,14 @@ def run(ctx):
         for e in events:
             if e["ev"] == "Reset":
                 name = e["tr"]
-            elif e["ev"] == "Crash" and e.get("self"):
-                selfcrash += 1
-                labels_hit.add(byname.get(name, {}).get("label", "?"))
+            elif e["ev"] == "Crash":
+                if "ckpt_begun" in e:
+                    ck_runs += 1
+                    ck_total += e["ckpt_done"]
+                    ck_inside += 1 if e["ckpt_begun"] > e["ckpt_done"] else 0
+                if e.get("self"):
+                    selfcrash += 1
+                    labels_hit.add(byname.get(name, {}).get("label", "?"))
             elif e["ev"] == "Enq" and e.get("acked"):
                 acked += 1
         fails = list(r["fails"])
@@ -115,6 +132,11 @@ def run(ctx):
     ctx.count("self_crashes", selfcrash)
     ctx.count("acknowledged_requests", acked)
     ctx.count("labels_with_crash", len(labels_hit))
+    ctx.count("checkpoint_runs", ck_runs)
+    ctx.count("checkpoints_completed_before_kill", ck_total)
+    ctx.count("kills_inside_a_checkpoint", ck_inside)
+    if ck_runs and ck_total == 0:
+        raise vf.Infra("vacuous: no WAL checkpoint ran in the checkpoint runs")
     for sig, (nm, e) in sorted(seen.items()):
         job = byname[nm]
         hit = False
